@@ -113,8 +113,9 @@ class NMEA2000Encoder:
         for message in encoded_messages:
             # Construct type byte: data length in bottom 4 bits
             type_byte = (len(message) & 0x0F) | (1 << 7)  # Set the FF bit        
-            # Construct the full packet
-            result.append(bytes([type_byte]) + frame_id_bytes + message)
+            # Construct the full packet. The gateway protocol uses fixed 13 byte packets:
+            # data shorter than 8 bytes is zero padded (the length is in the type byte)
+            result.append(bytes([type_byte]) + frame_id_bytes + message + bytes(8 - len(message)))
         return result
 
     def encode_usb(self, nmea2000Message: NMEA2000Message) -> list[bytes]:
